@@ -180,6 +180,41 @@ def struct_pair(ctx, rep, tpath):
         fs = origin_fields(o[2]) - {"0"}
         if len(fs) == 1 and "Err" in w.ret_kinds(oth) and not (w.ret_kinds(oth) - {"Err", "residual"}):
             domain[list(fs)[0]] = o[3][1]
+    # ... and, independent of where the guard is spelled (inline, in a helper, `<=` or `>`): on the writer's path table every path
+    # that returns Ok establishes an upper bound for the field
+    try:
+        wrows = w.decision_rows()
+    except Exception:
+        wrows = None
+    if wrows:
+        per_field = {}
+        ok_rows = 0
+        for conds, ret, _o in wrows:
+            if ret[1] != "Ok":
+                continue
+            ok_rows += 1
+            bounds = {}
+            for c in conds:
+                o = c[4]
+                if not (isinstance(o, tuple) and o and o[0] == "bin" and o[1] in ("Gt", "Ge", "Lt", "Le") and o[3][0] == "const" and o[3][1] is not None and c[2] in ("eq", "ne") and len(c[3]) == 1 and c[3][0] in (0, 1)):
+                    continue
+                fs = origin_fields(o[2]) - {"0"}
+                if len(fs) != 1:
+                    continue
+                truth = (c[3][0] != 0) if c[2] == "eq" else (c[3][0] == 0)
+                K = o[3][1]
+                ub = {("Gt", False): K, ("Le", True): K, ("Ge", False): K - 1, ("Lt", True): K - 1}.get((o[1], truth))
+                if ub is not None:
+                    f = list(fs)[0]
+                    bounds[f] = min(bounds.get(f, ub), ub)
+            for f in set(per_field) | set(bounds):
+                per_field.setdefault(f, []).append(bounds.get(f))
+            for f in bounds:
+                if len(per_field[f]) < ok_rows:
+                    per_field[f] = [None] * (ok_rows - 1) + [bounds[f]]
+        for f, bs in per_field.items():
+            if ok_rows and len(bs) == ok_rows and all(x is not None for x in bs) and f not in domain:
+                domain[f] = max(bs)
     widths = {}
     structs = ctx.mir.structs.get(tpath, {"fields": []})
     for fd in structs["fields"]:
